@@ -3,11 +3,11 @@ package c16
 import (
 	"fmt"
 	"sort"
+	"strconv"
 
 	"github.com/nspcc-dev/neo-go/pkg/core/interop"
 	istorage "github.com/nspcc-dev/neo-go/pkg/core/interop/storage"
 	"github.com/nspcc-dev/neo-go/pkg/core/native/nativehashes"
-	"github.com/nspcc-dev/neo-go/pkg/core/transaction"
 	"github.com/nspcc-dev/neo-go/pkg/io"
 	"github.com/nspcc-dev/neo-go/pkg/smartcontract/callflag"
 	"github.com/nspcc-dev/neo-go/pkg/smartcontract/trigger"
@@ -37,6 +37,9 @@ type sysVariant struct {
 	Label string
 	Args  func(w *world) []any // Args()[0] is popped first by the system call
 	Trig  trigger.Type         // 0 = Application
+	// Reports: the result of the run is the flag set held by some code reached from the probe (System.Contract.GetCallFlags):
+	// 1 = by the probe itself (must equal F), 2 = by code it called or loaded (must be a subset of F: flags only shrink).
+	Reports int
 }
 
 // sysSpec is one row of the hand-written system call table: arity and result shape only -- the flag
@@ -57,6 +60,14 @@ func (s sysSpec) key() string {
 }
 
 func noArgs(*world) []any { return nil }
+
+func reports(v sysVariant) sysVariant { v.Reports = 2; return v }
+
+func sysScript(name string) []byte {
+	bw := io.NewBufBinWriter()
+	emit.Syscall(bw.BinWriter, name)
+	return bw.Bytes()
+}
 
 func fixed(a ...any) func(*world) []any { return func(*world) []any { return a } }
 
@@ -87,13 +98,16 @@ func init() {
 			callV("P1.sa_nothing/All", p1, "sa_nothing", 15, pArg),
 			callV("P4.ping/None", p4, "ping", 0, func(*world) []any { return []any{nil} }),
 			callV("P1.call/All", p1, "a_call", 15, pArg),
+			reports(callV("P1.flags/All", p1, "a_flags", 15, pArg)),
+			reports(callV("P1.flags/WN", p1, "a_flags", 10, pArg)),
+			reports(callV("P1.sa_flags/All", p1, "sa_flags", 15, pArg)),
 			callV("GAS.balanceOf", gas, "balanceOf", 15, func(*world) []any { return []any{hb(a0.Hash)} }),
 			callV("GAS.transfer-from-self", gas, "transfer", 15, func(w *world) []any { return []any{hb(w.sc.Hash), hb(a0.Hash), int64(3), nil} }),
 		}},
 		{Name: "System.Contract.CallNative", Arity: 1, V: []sysVariant{{Label: "v0", Args: fixed(int64(0))}}},
 		{Name: "System.Contract.CreateMultisigAccount", Arity: 2, Ret: true, V: []sysVariant{{Label: "1of1", Args: fixed(int64(1), []any{a0.Pub.Bytes()})}}},
 		{Name: "System.Contract.CreateStandardAccount", Arity: 1, Ret: true, V: []sysVariant{{Label: "pub", Args: fixed(a0.Pub.Bytes())}}},
-		{Name: "System.Contract.GetCallFlags", Ret: true, V: []sysVariant{{Label: "-", Args: noArgs}}},
+		{Name: "System.Contract.GetCallFlags", Ret: true, V: []sysVariant{{Label: "-", Args: noArgs, Reports: 1}}},
 		{Name: "System.Contract.NativeOnPersist", V: []sysVariant{{Label: "app", Args: noArgs}, {Label: "onpersist", Args: noArgs, Trig: trigger.OnPersist}}},
 		{Name: "System.Contract.NativePostPersist", V: []sysVariant{{Label: "app", Args: noArgs}, {Label: "postpersist", Args: noArgs, Trig: trigger.PostPersist}}},
 		{Name: "System.Crypto.CheckMultisig", Arity: 2, Ret: true, V: []sysVariant{
@@ -127,6 +141,8 @@ func init() {
 		{Name: "System.Runtime.GetTrigger", Ret: true, V: []sysVariant{{Label: "-", Args: noArgs}}},
 		{Name: "System.Runtime.LoadScript", Arity: 3, Ret: true, V: []sysVariant{
 			loadV("push1", func(*world) []byte { return []byte{byte(opcode.PUSH1)} }, 15),
+			reports(loadV("getflags/All", func(*world) []byte { return sysScript("System.Contract.GetCallFlags") }, 15)),
+			reports(loadV("getflags/RW", func(*world) []byte { return sysScript("System.Contract.GetCallFlags") }, 3)),
 			loadV("calls-P4.ping", func(w *world) []byte { return appCall(w.ps[3].Hash, "ping", callflag.All, nil) }, 15),
 			loadV("calls-P4.ping/None", func(w *world) []byte { return appCall(w.ps[3].Hash, "ping", callflag.All, nil) }, 0),
 			loadV("calls-P1.put", func(w *world) []byte { return appCall(w.ps[0].Hash, "a_put", callflag.All, []any{hb(w.ps[3].Hash)}) }, 15),
@@ -223,9 +239,20 @@ type SysCase struct {
 }
 
 func genSysCase(t *rapid.T) SysCase {
-	c := SysCase{Sys: rapid.IntRange(0, len(sysTable)-1).Draw(t, "sys")}
-	c.Variant = rapid.IntRange(0, len(sysTable[c.Sys].V)-1).Draw(t, "variant")
-	c.Mode = rapid.IntRange(0, 2).Draw(t, "mode")
+	// uniform over the flattened (row, variant) pairs, then over the three modes
+	n := 0
+	for _, s := range sysTable {
+		n += len(s.V)
+	}
+	k := uniform(t, n, "cell")
+	c := SysCase{Mode: uniform(t, 3, "mode")}
+	for i, s := range sysTable {
+		if k < len(s.V) {
+			c.Sys, c.Variant = i, k
+			break
+		}
+		k -= len(s.V)
+	}
 	return c
 }
 
@@ -294,24 +321,13 @@ func confined(eff int, o *outcome, calls int, foreign []string) error {
 	return nil
 }
 
-func (o *outcome) callsExcept(own ...string) int {
-	n := 0
-outer:
-	for k, v := range o.Invoc {
-		for _, s := range own {
-			if k == s {
-				continue outer
-			}
-		}
-		n += v
-	}
-	return n
-}
-
 func checkSysCase(c SysCase, o *vt.Obs) error {
 	w, err := getWorld()
 	if err != nil {
 		return fmt.Errorf("setup: %v", err)
+	}
+	if w.covErr != nil {
+		return w.covErr
 	}
 	if c.Sys < 0 || c.Sys >= len(sysTable) || c.Variant < 0 || c.Variant >= len(sysTable[c.Sys].V) {
 		return nil
@@ -334,7 +350,7 @@ func checkSysCase(c SysCase, o *vt.Obs) error {
 		if !outs[f].Halt {
 			continue
 		}
-		calls := outs[f].callsExcept("SC")
+		calls := outs[f].Calls
 		if c.Mode == modeCalled {
 			// The entry script (All) performed exactly one call, of SC; everything else is the confined code's doing.
 			if outs[f].Invoc["SC"] != 1 {
@@ -343,7 +359,28 @@ func checkSysCase(c SysCase, o *vt.Obs) error {
 		} else if n := outs[f].Invoc["SC"]; n > 1 {
 			calls += n
 		}
-		if err := confined(f, outs[f], calls, outs[f].Foreign); err != nil {
+		if v.Reports != 0 {
+			held, err := strconv.Atoi(outs[f].Stack)
+			if err != nil {
+				return fmt.Errorf("%s flags %s: expected a flag set as the result, got %q", where, flagName(f), outs[f].Stack)
+			}
+			if v.Reports == 1 && held != f {
+				return fmt.Errorf("%s: probe loaded with flags %s reports holding %s", where, flagName(f), flagName(held))
+			}
+			if held&^f != 0 {
+				return fmt.Errorf("%s: code reached from a context holding %s reports holding %s: flags grew along the call chain", where, flagName(f), flagName(held))
+			}
+		}
+		eff := f
+		if v.Trig != 0 && f&fNotify == 0 && len(outs[f].Notifs) != 0 {
+			// NativeOnPersist / NativePostPersist under their own triggers: the natives mint and burn GAS, which records
+			// Transfer events, while the system calls ask for States only. Only the node itself can produce these triggers
+			// and it always loads the persist scripts with All (Blockchain.runPersist), so no caller can observe this:
+			// recorded as a class, not judged. Storage and call confinement are still judged.
+			o.Label("persist-trigger/notifies-without-AllowNotify(unreachable)")
+			eff |= fNotify
+		}
+		if err := confined(eff, outs[f], calls, outs[f].Foreign); err != nil {
 			return fmt.Errorf("%s: %v; outcome %s", where, err, outs[f])
 		}
 	}
@@ -391,7 +428,7 @@ func checkSysCase(c SysCase, o *vt.Obs) error {
 		if len(outs[15].Notifs) != 0 {
 			o.Label("effect/notification")
 		}
-		if outs[15].callsExcept("SC") != 0 || len(outs[15].Foreign) != 0 {
+		if outs[15].Calls != 0 || len(outs[15].Foreign) != 0 {
 			o.Label("effect/call")
 		}
 	}
@@ -431,5 +468,3 @@ func (w *world) sysTableCoverage() error {
 	}
 	return nil
 }
-
-var _ = transaction.Global
